@@ -132,7 +132,7 @@ ConfigsC14x ==
         d \in {2, Inf}, bu \in {None, 1}, ab \in BOOLEAN, op \in BOOLEAN }
 
 \* ---- C04 / C11: delivery, every stop reason, mixed causes -------------------
-OutsC04 == {OkOut} \cup FailOuts({"exc", "res"}, {T, U, P, R}, {None})
+OutsC04 == {OkOut} \cup FailOuts({"exc", "res"}, {T, U, P, R}, {None}) \cup {Out("excsame", T, None)}
 ConfigsC04 ==
     { [Base EXCEPT !.maxAtt = 3, !.rc = TRUE, !.maxUnk = 1, !.D = d,
                    !.lim = [NoLim EXCEPT ![T] = 1],
@@ -180,7 +180,7 @@ ConfigsC12x ==
     { [Base EXCEPT !.maxAtt = 2, !.rc = TRUE, !.maxUnk = 1, !.D = d,
                    !.lim = [NoLim EXCEPT ![T] = 1], !.hasDefault = st[1], !.strat = st[2],
                    !.legacy = st[3], !.budget = bu, !.handler = ha, !.bsleep = ha, !.abort = ab] :
-        d \in {3, Inf}, st \in {<<TRUE, {}, {}>>, <<FALSE, {T, U, P}, {U}>>},
+        d \in {3, Inf}, st \in {<<TRUE, {}, {}>>, <<FALSE, {T, U, P}, {U}>>, <<FALSE, {}, {}>>},
         bu \in {1}, ha \in BOOLEAN, ab \in BOOLEAN }
 OutsC12x == {OkOut, Out("exc", T, None), Out("res", R, 2), Out("exc", U, None)}
 ConfigsC15x ==
